@@ -51,8 +51,13 @@ VK(cv, P) == IF Small(cv) THEN P = Inf \/ P \in Tab[cv.name].sub ELSE ValidKey(c
 ImportT(cv, o, enc, val) == ImportW(cv, o, enc, val, LAMBDA P : VK(cv, P))
 
 (* ------------------------------------------------------------------ rows *)
+FormSeq == << "compressed", "packed", "separate", "concat" >>
+EncRec(cv, o, form, P) == LET e == Encode(cv, o, form, P) IN [x |-> e.x, y |-> e.y]
 PointRow(cv, o, rec) ==
    [ pt |-> rec.pt, d |-> rec.d,
+     \* verdict of importing each encoding back (validation on / off), in the order of FormSeq
+     impon  |-> [i \in 1..4 |-> ImportT(cv, o, EncRec(cv, o, FormSeq[i], rec.pt), TRUE)],
+     impoff |-> [i \in 1..4 |-> ImportT(cv, o, EncRec(cv, o, FormSeq[i], rec.pt), FALSE)],
      comp |-> Encode(cv, o, "compressed", rec.pt).x, packed |-> Encode(cv, o, "packed", rec.pt).x,
      sepx |-> Encode(cv, o, "separate", rec.pt).x, sepy |-> Encode(cv, o, "separate", rec.pt).y,
      concat |-> Encode(cv, o, "concat", rec.pt).x ]
@@ -60,7 +65,8 @@ Points(cv, o) == LET ps == Tab[cv.name].pts IN [i \in 1..Len(ps) |-> PointRow(cv
 
 \* scan descriptors [fixed, nvar, sep, y]: the varying octets are appended to `fixed` (sep = FALSE, y = the optional
 \* second block) or form the second block (sep = TRUE)
-XSample(cv) == { cv.gx, Dbl(cv, G(cv))[1], 0, 1, 5, cv.p - 1, cv.p, Top(cv) } \cup { x \in { cv.gx + cv.p } : x <= Top(cv) }
+XSample(cv) == IF ScanWide THEN { cv.gx, Dbl(cv, G(cv))[1], 0, 1, 5, cv.p - 1, cv.p, Top(cv) } \cup { x \in { cv.gx + cv.p } : x <= Top(cv) }
+               ELSE { cv.gx, cv.p }
 Scans(cv, o) ==
    LET Bn == FieldBytes(cv)   gxs == Coord(cv, cv.gx, o)   gys == Coord(cv, cv.gy, o)
        D(f, nv, sp, y) == [fixed |-> f, nvar |-> nv, sep |-> sp, y |-> y]
@@ -97,6 +103,7 @@ ScanRow(cv, o, val, d) ==
         may |-> { << w, sts[w].pt >> : w \in { w \in 0..(N - 1) : sts[w].st = "may" } },
         other |-> { w \in 0..(N - 1) : sts[w].st = (IF dflt = "any" THEN "reject" ELSE "any") } ]
 
+PubT(cv, d) == IF Small(cv) THEN Tab[cv.name].gm[d + 1] ELSE PubOf(cv, d)
 RndList(cv, o) ==
    LET Bn == FieldBytes(cv)
        vals == IF Small(cv) THEN 0..255 ELSE { 0, 1, 2, 255, 256, cv.n - 1, cv.n, cv.n + 1, Top(cv) - 1, Top(cv) } \cup Rnd(Seed + 17, 12, Top(cv) + 1, { })
@@ -106,8 +113,10 @@ RndList(cv, o) ==
 KeyGenRow(cv, o) ==
    LET RECURSIVE F(_, _)
        F(U, acc) == IF U = { } THEN acc
-                    ELSE LET r == CHOOSE y \in U : TRUE   ds == KeyGenD(cv, o, r)
-                         IN F(U \ { r }, Append(acc, [rnd |-> r, ds |-> SetToSeq(ds \ { 0 }), mayfail |-> 0 \in ds]))
+                    ELSE LET r == CHOOSE y \in U : TRUE   ds == KeyGenD(cv, o, r)   dq == SetToSeq(ds \ { 0 })
+                         IN F(U \ { r }, Append(acc, [rnd |-> r, ds |-> dq, mayfail |-> 0 \in ds,
+                                                     \* the key pair's public half for every admitted private key
+                                                     pubs |-> [j \in 1..Len(dq) |-> PointRow(cv, o, [pt |-> PubT(cv, dq[j]), d |-> dq[j]])]]))
    IN F(RndList(cv, o), << >>)
 
 MulP(cv, P, j) == Mul(cv, j, P)
@@ -123,7 +132,9 @@ Ords == { "be", "le" }
 InitPoints == /\ vKind = "points" /\ "points" \in Kinds /\ vCurve \in CurveSet /\ vOrd \in Ords /\ vVal = TRUE /\ vSel = 0
               /\ vOut = Points(vCurve, vOrd)
 InitScan   == /\ vKind = "scan" /\ "scan" \in Kinds /\ vCurve \in CurveSet /\ vOrd \in Ords /\ vVal \in BOOLEAN
-              /\ vSel \in 1..Len(ScanTab[vCurve.name][vOrd])
+              /\ vSel \in { i \in 1..Len(ScanTab[vCurve.name][vOrd]) :
+                              LET d == ScanTab[vCurve.name][vOrd][i] IN        \* validation off: raw forms are unspecified, only narrow / compressed scans
+                              vVal \/ d.nvar = 1 \/ (Len(d.fixed) > 0 /\ d.fixed[1] \in { 2, 3 } /\ ~d.sep) }
               /\ vOut = ScanRow(vCurve, vOrd, vVal, ScanTab[vCurve.name][vOrd][vSel])
 InitKeyGen == /\ vKind = "keygen" /\ "keygen" \in Kinds /\ vCurve \in CurveSet /\ vOrd \in Ords /\ vVal = TRUE /\ vSel = 0
               /\ vOut = KeyGenRow(vCurve, vOrd)
@@ -162,7 +173,9 @@ ScanSound == vKind = "scan" =>
    /\ \A a \in vOut.acc \cup vOut.may : vVal => (a[2] = Inf \/ (OnCurve(vCurve, a[2]) /\ Mul(vCurve, vCurve.n, a[2]) = Inf))
    /\ Cardinality(vOut.acc) + Cardinality(vOut.may) + Cardinality(vOut.other) <= vOut.n
 KeyGenSound == vKind = "keygen" =>
-   \A i \in 1..Len(vOut) : /\ \A j \in 1..Len(vOut[i].ds) : vOut[i].ds[j] \in 1..(vCurve.n - 1)
+   \A i \in 1..Len(vOut) : /\ \A j \in 1..Len(vOut[i].ds) : /\ vOut[i].ds[j] \in 1..(vCurve.n - 1)
+                                                             /\ ValidKey(vCurve, vOut[i].pubs[j].pt) /\ vOut[i].pubs[j].pt # Inf
+                                                             /\ (j = 1 => vOut[i].pubs[j].pt = PubOf(vCurve, vOut[i].ds[j]))
                            /\ (vOut[i].mayfail \/ vOut[i].ds # << >>)
 DHSym == vKind = "dh" =>
    LET ps == Tab[vCurve.name].pts IN
